@@ -9,7 +9,8 @@ import time
 
 VERIF = os.path.dirname(os.path.dirname(os.path.abspath(__file__)))
 REPO = os.environ.get("VERIF_REPO", "/repo")
-BUILD = os.path.join(VERIF, "build")
+BUILD = os.environ.get("VERIF_BUILD", os.path.join(VERIF, "build"))
+EVIDENCE_DIR = os.environ.get("VERIF_EVIDENCE_DIR", os.path.join(VERIF, "evidence"))
 VX = os.path.join(VERIF, "tools/extract/target/release/vx")
 RLIMIT = "60"
 GUARD = "rust_ndarray_ndarray_stats_verif"
@@ -81,21 +82,55 @@ def norm_clause(text):
     return t[:90]
 
 
-def run_unit(unit, mode, vacuity=False, seed=None):
-    """extract + verify one unit in one mode; returns a result dict"""
+def run_unit(unit, mode, vacuity=False, seed=None, stub=None):
+    """extract + verify one unit in one mode; returns a result dict.
+    When a function of the unit can no longer be placed (lost anchor) or no longer compiles against the shim, that
+    function is replaced by a trusted stub of its contract and the rest of the unit is verified again: the stubbed
+    function is then undecided (never an alarm), the others keep their verdicts."""
     ensure_vx()
     os.makedirs(BUILD, exist_ok=True)
-    stem = "%s_%s%s" % (unit, mode, "_vac" if vacuity else "")
+    stub = list(stub or [])
+    stem = "%s_%s%s%s" % (unit, mode, "_vac" if vacuity else "", ("_s%d" % seed) if seed is not None else "")
     gen = os.path.join(BUILD, stem + ".rs")
     mapf = os.path.join(BUILD, stem + ".map.json")
-    cmd = [VX, "--template", os.path.join(VERIF, "units", unit + ".tpl.rs"), "--repo", REPO, "--out", gen, "--map", mapf, "--mode", mode]
-    if vacuity:
-        cmd.append("--vacuity")
-    rc, o, e, _ = sh(cmd)
-    if rc == 3:
-        raise Inconclusive("lost-anchor", e.strip())
-    if rc != 0:
-        raise Inconclusive("tool-error", "vx: " + e.strip())
+    for _attempt in range(8):
+        cmd = [VX, "--template", os.path.join(VERIF, "units", unit + ".tpl.rs"), "--repo", REPO, "--out", gen, "--map", mapf, "--mode", mode]
+        if vacuity:
+            cmd.append("--vacuity")
+        if stub:
+            cmd += ["--stub", ",".join(stub)]
+        rc, o, e, _ = sh(cmd)
+        if rc == 3:
+            mm = re.search(r"\[fn=([^\]]+)\]", e)
+            if mm and mm.group(1) not in stub and "candidates for fn" not in e:
+                stub.append(mm.group(1))
+                continue
+            raise Inconclusive("lost-anchor", e.strip())
+        if rc != 0:
+            raise Inconclusive("tool-error", "vx: " + e.strip())
+        break
+    else:
+        raise Inconclusive("lost-anchor", "too many functions lost their anchors")
+    res = verify_generated(unit, mode, vacuity, seed, gen, mapf)
+    # compile errors located inside extracted functions: stub those functions and verify the rest
+    for _attempt in range(4):
+        bad = sorted({t["fn"] for t in res["tool_errors"] if t.get("fn")} - set(stub))
+        if not bad or len([t for t in res["tool_errors"] if not t.get("fn")]) > 0:
+            break
+        stub += bad
+        cmd = [VX, "--template", os.path.join(VERIF, "units", unit + ".tpl.rs"), "--repo", REPO, "--out", gen, "--map", mapf, "--mode", mode, "--stub", ",".join(stub)]
+        if vacuity:
+            cmd.append("--vacuity")
+        rc, o, e, _ = sh(cmd)
+        if rc != 0:
+            break
+        res = verify_generated(unit, mode, vacuity, seed, gen, mapf)
+    res["stubbed"] = stub
+    return res
+
+
+def verify_generated(unit, mode, vacuity, seed, gen, mapf):
+    stem = os.path.basename(gen)[:-3]
     m = json.load(open(mapf))
     vcmd = ["verus", gen, "--multiple-errors", "50", "--rlimit", RLIMIT, "--output-json", "--time", "--time-expanded", "--error-format=json"]
     if seed is not None:
@@ -140,7 +175,12 @@ def run_unit(unit, mode, vacuity=False, seed=None):
         spans = d.get("spans", [])
         prim = [s for s in spans if s.get("is_primary")] or spans
         if cls == "tool" or d.get("code"):
-            tool_errors.append({"message": msg, "rendered": d.get("rendered", "")[:1500]})
+            pf = None
+            if prim:
+                pc = piece_at(prim[0]["line_start"]) or {}
+                if pc.get("kind") in ("body", "rewrite", "loop", "ghost", "closure", "sig", "spec"):
+                    pf = pc.get("fn")
+            tool_errors.append({"message": msg, "rendered": d.get("rendered", "")[:1500], "fn": pf})
             continue
         if not prim:
             tool_errors.append({"message": msg, "rendered": d.get("rendered", "")[:1500]})
@@ -368,6 +408,11 @@ def main(argv):
         print("INCONCLUSIVE property=%s reason=%s" % (pid, ex.reason))
         print(ex.detail[-3000:])
         return 2
+    except Exception as ex:  # a crash of the machinery is never an alarm
+        import traceback
+        print("INCONCLUSIVE property=%s reason=tool-error (%s)" % (pid, type(ex).__name__))
+        traceback.print_exc()
+        return 2
 
 
 def do_replay(pid, path):
@@ -445,7 +490,7 @@ def decide(pid, tier, seed, t0):
         if kind == "vac":
             # every extracted function must be REJECTED when `assert(false)` is placed at its entry
             for f in extracted:
-                if not in_cone(f["tags"]):
+                if not in_cone(f["tags"]) or f.get("stubbed"):
                     continue
                 vac_total += 1
                 fm = map_funcs(r["funcs"], extracted)
@@ -470,7 +515,10 @@ def decide(pid, tier, seed, t0):
         # relevant functions: extracted functions tagged with this property + shim/lemma functions (always)
         rel_fn_ids = {f["id"] for f in extracted if in_cone(f["tags"])}
         for f in extracted:
-            if f["id"] in rel_fn_ids:
+            if f.get("stubbed") and f["id"] in rel_fn_ids:
+                inconclusive.append("%s::%s could not be placed against its contract on this tree (lost anchor / construct outside the shim): undecided by the deductive side" % (crate, f["id"]))
+        for f in extracted:
+            if f["id"] in rel_fn_ids and not f.get("stubbed"):
                 fn_under_contract.append({
                     "unit": crate, "fn": f["id"], "repo_file": f["file"], "lines": "%d-%d" % (f["src_line_start"], f["src_line_end"]),
                     "body_sha256": hashlib.sha256(f["body"].encode()).hexdigest(), "loops": f["loops"],
@@ -624,12 +672,12 @@ def decide(pid, tier, seed, t0):
         "assumptions": P.get("assumptions", []) + ["trusted contracts (mechanically scanned): " + ", ".join(sorted(trusted))] if trusted else P.get("assumptions", []),
         "wall_s": round(wall, 2), "violations": len(violations),
     }
-    write_json(os.path.join(VERIF, "evidence", pid + ".json"), ev)
+    write_json(os.path.join(EVIDENCE_DIR, pid + ".json"), ev)
 
     for k, f in known_hits:
         print("KNOWN-FINDING: property=%s %s [%s]" % (pid, k["text"], f["id"]))
     if violations:
-        outdir = os.path.join(VERIF, "replay", "out")
+        outdir = os.environ.get("VERIF_REPLAY_OUT", os.path.join(VERIF, "replay", "out"))
         os.makedirs(outdir, exist_ok=True)
         path = os.path.join(outdir, "%s-%d.json" % (pid, int(time.time())))
         write_json(path, {"property": pid, "tier": tier, "violations": violations})
